@@ -351,4 +351,9 @@ def bytes_to_element(bytes):
         raise ValueError("element is not in the right group")
     # the point is in the expected 1*L subgroup, not in the 2/4/8 groups,
     # or in the 2*L/4*L/8*L groups. Promote it to a correct-group Element.
-    return Element(P.XYTZ)
+    element = Element(P.XYTZ)
+    # only accept the unique canonical 32-byte encoding: decodepoint()
+    # ignores trailing bytes and tolerates y>=Q and a sign bit on x=0
+    if element.to_bytes() != bytes:
+        raise ValueError("element encoding is not canonical")
+    return element
